@@ -12,6 +12,7 @@ Abstract side: GixModel.Spec.C16 — a map `Name → Option Target` with the all
 compare-and-swap `Spec.apply`. `abs` looks at a store the way `try_find` does.
 -/
 import GixModel.Lemmas.C16Log
+import GixModel.Lemmas.C16Head
 import GixModel.Lemmas.C16Race
 import GixModel.Model.C16
 
@@ -451,6 +452,14 @@ theorem reflog_lines_noderef_partial (env : Env) (SX SX' : StoreX) (t : Txn) (hS
       (t.edits.map fun u => { update := u }) :=
   reflog_noderef env SX SX' t hS hL hT hnd hnb h
 
+/-- The same reflog equation without the side condition: names below a loose reference file
+(which need no lock file of their own in a transaction that succeeds) do not change the lines. -/
+theorem reflog_lines_noderef_any (env : Env) (SX SX' : StoreX) (t : Txn) (hS : StoreOk SX.base)
+    (hL : NoLocks SX.base) (hT : PlainTxn t) (hnd : NoDeref t) (h : runX env SX t = .ok SX') :
+    SX'.logs = logsD (specLogsU (abs SX.base) SX.logs (t.edits.map fun u => { update := u }))
+      (t.edits.map fun u => { update := u }) :=
+  reflog_noderef_any env SX SX' t hS hL hT hnd h
+
 -- b := 2 where b was 1 and has a reflog, t := 2 (tags get no reflog by default), delete a/b:
 -- one line 1 -> 2 for b, nothing for t, the reflog of a/b is gone
 example :
@@ -463,39 +472,6 @@ example :
     (match runX { known := fun _ => true } SX t with
       | .ok SX' => decide (lookup SX'.logs nB = some [(0, 1), (1, 2)] ∧ lookup SX'.logs nT = none ∧ lookup SX'.logs nAB = none)
       | _ => false) = true := by decide
-
-/-- the value a dereferenced symbolic ref logs as `old`: the object at the end of its chain; if
-the chain ends at a name that does not exist, the `ExistingMustMatch(object)` expectation of the
-edit for that name stands in (as the code does) -/
-def leafOld (M : RefMap) (es : List Edit) : Nat → Name → Option Oid
-  | 0, _ => none
-  | fuel + 1, n =>
-    match M n with
-    | some (.symbolic next) => leafOld M es fuel next
-    | some (.object p) => some p
-    | none =>
-      match es.find? (fun x => x.name = n) with
-      | some x => (match x.update.change with
-        | .update _ (.existingMustMatch (.object o)) _ => some o
-        | .delete (.existingMustMatch (.object o)) _ => some o
-        | _ => none)
-      | none => none
-
-/-- the reflog line of any processed edit, split parents included -/
-def specLineFull (M : RefMap) (es : List Edit) (e : Edit) : Option LogLine :=
-  match e.update.change, M e.name with
-  | .update .only _ (.object new), some (.symbolic next) =>
-    (match leafOld M es 6 next with
-      | some p => if p = new then none else some (p, new)
-      | none => some (0, new))
-  | _, ex => specLine ex e
-
-def specLogsUFull (M : RefMap) (es : List Edit) : List (Name × List LogLine) → List Edit → List (Name × List LogLine)
-  | logs, [] => logs
-  | logs, e :: rest =>
-    specLogsUFull M es (match specLineFull M es e with
-      | some l => if autoLog e.name || (lookup logs e.name).isSome then appendLog logs e.name l else logs
-      | none => logs) rest
 
 /-- The full reflog statement, dereferencing edits included (a split symbolic ref such as HEAD logs
 the old value of the branch it points to). NOT proved in Lean: the leaf value travels through
@@ -528,6 +504,37 @@ example :
       | .ok SX', .ok es => decide (SX'.logs = logsD (specLogsUFull (abs SX.base) es SX.logs es) es ∧
           lookup SX'.logs bHead = some [(3, 1)] ∧ lookup SX'.logs nA = some [(0, 1)])
       | _, _ => false) = true := by decide
+
+/-- The full reflog statement PROVED for the transaction it was written for: one dereferencing
+update of a symbolic ref `n` (HEAD) that points to `next`, a branch or a name that does not exist
+yet (`next` not itself symbolic) — any expectation, any mode, any reflogs and other references in
+the store. If it succeeds, the reflogs afterwards are exactly those of `C16_reflog_full`: `n`'s line
+carries as `old` the object `next` had (through `leaf_referent_previous_oid`), or the object of an
+`ExistingMustMatch` expectation if `next` does not exist, else the null id; `next` gets its own
+line. -/
+theorem reflog_lines_head_deref (env : Env) (SX SX' : StoreX) (m : Mode) (n next : Name) (ex : Prev) (new : Oid)
+    (hS : StoreOk SX.base) (hL : NoLocks SX.base)
+    (hsym : lookup SX.base.loose n = some (.symbolic next))
+    (hnext : ∀ r, SX.base.find next ≠ some (.symbolic r))
+    (h : runX env SX { edits := [{ change := .update .andReference ex (.object new), name := n, deref := true }], mode := m }
+      = .ok SX') (es : List Edit)
+    (hp : preProcess (fun k => lookup SX.base.loose k)
+      [{ change := .update .andReference ex (.object new), name := n, deref := true }] = .ok es) :
+    SX'.logs = logsD (specLogsUFull (abs SX.base) es SX.logs es) es :=
+  reflog_head_es env SX SX' m n next ex new hS hL hsym hnext h es hp
+
+/-- … spelled out when the branch exists with object `old ≠ new`: the symbolic ref and the branch
+both get the line `old -> new` appended (each if it gets reflogs by default or already has one). -/
+theorem head_logs_branch_old_value (env : Env) (SX SX' : StoreX) (m : Mode) (n next : Name) (ex : Prev) (old new : Oid)
+    (hS : StoreOk SX.base) (hL : NoLocks SX.base)
+    (hsym : lookup SX.base.loose n = some (.symbolic next))
+    (hold : SX.base.find next = some (.object old)) (hchg : old ≠ new)
+    (h : runX env SX { edits := [{ change := .update .andReference ex (.object new), name := n, deref := true }], mode := m }
+      = .ok SX') :
+    SX'.logs =
+      let l1 := if autoLog n || (lookup SX.logs n).isSome then appendLog SX.logs n (old, new) else SX.logs
+      if autoLog next || (lookup l1 next).isSome then appendLog l1 next (old, new) else l1 :=
+  reflog_head_explicit env SX SX' m n next ex old new hS hL hsym hold hchg h
 
 /-! ### writers contending on packed-refs.lock (small-step model GixModel.Lemmas.C16Race) -/
 
